@@ -21,6 +21,7 @@ ASSUMPTIONS = [
 ]
 
 ST = "state.structure.State"
+_CLS = type("_SomeClass", (), {"__bool__": lambda self: True})()
 VAL = "state.validation"
 RES = "state.attributes._resolve_attribute_annotation"
 
@@ -245,11 +246,11 @@ def check(an: Analysis) -> None:
     drf = Deps(prog, rf)
     n_alias = 0
     for c in [c for c in rf.own_nodes() if isinstance(c, ast.Call) and an.callee(rf, c) == rf.qualname and c.args]:
-        a0 = unwrap(c.args[0])
+        a0 = unwrap(drf.inline(c.args[0]))
         if not (isinstance(a0, ast.Attribute) and a0.attr == "__value__"):
             continue
         # is the alias object a capture of `match get_origin(<generic alias>)` ?
-        if not _bound_from_origin(rf, a0.value, ann_param):
+        if not _bound_from_origin(rf, a0.value, ann_param, where=c):
             continue
         n_alias += 1
         ob.inst(rf, c)
@@ -258,6 +259,68 @@ def check(an: Analysis) -> None:
             ob.fail(rf, c, "the value of a parametrised type alias is resolved without the arguments the alias was given: its parameters resolve to their bound / Any, so e.g. `items: frozenlist[int]` accepts ('a', 'b')")
     if n_alias == 0:
         ob.missing(rf, None, "the resolution of parametrised type aliases (origin is a TypeAliasType) was not found")
+
+    # ------------------------------------------------------------------ C05.14 specialisation of generic State classes
+    ob = an.ob("C05.14", "K5+K2", "State.__class_getitem__ hands the type arguments to the class it builds (type_parameters = {parameter name: argument} over cls.__type_params__ x the arguments, passed to StateMeta.__new__, which passes them on to attribute_annotations); a cached specialisation is returned only for the same (class, arguments); every path returns a class", [f"{ST}.__class_getitem__", "state.structure.StateMeta.__new__"])
+    cgi = prog.fn(f"{ST}.__class_getitem__")
+    dcg = Deps(prog, cgi)
+    gcg = an.cfg(cgi)
+    metaq = prog.fn("state.structure.StateMeta.__new__").qualname
+    news = [c for c in cgi.own_nodes() if isinstance(c, ast.Call) and (an.callee(cgi, c) == metaq or (dotted(c.func) or "").endswith("StateMeta.__new__"))]
+    if len(news) != 1:
+        ob.missing(cgi, None, f"the specialised class is built by {len(news)} StateMeta.__new__ calls (expected one)")
+    arg_p = cgi.param_names()[1] if len(cgi.param_names()) > 1 else ""
+    for c in news:
+        ob.inst(cgi, c)
+        tp = next((k.value for k in c.keywords if k.arg == "type_parameters"), None)
+        deps_tp = dcg.of(tp) if tp is not None else frozenset()
+        if tp is None or f"param:{arg_p}" not in deps_tp or not any("__type_params__" in x for x in deps_tp):
+            ob.fail(cgi, c, "the specialised class is built without the mapping {type parameter name: argument}: every attribute typed by a parameter validates as its bound / Any")
+        bs = next((k.value for k in c.keywords if k.arg == "bases"), None)
+        if bs is None or "param:cls" not in dcg.of(bs):
+            ob.fail(cgi, c, "the specialised class does not derive from the generic class")
+    for r in [n for n in gcg.nodes if n.kind == "return"]:
+        ob.inst(cgi, r.ast)
+        v = r.ast.value  # type: ignore[union-attr]
+        if v is None or (isinstance(v, ast.Constant) and v.value is None):
+            ob.fail(cgi, r.ast, "a path of State.__class_getitem__ returns no class")
+    # the cache: looked up and stored under (cls, arguments); a hit is returned, a miss builds (scenarios)
+    lookups = [n for n in gcg.nodes if n.kind == "call" and isinstance(n.ast.func, ast.Attribute) and n.ast.func.attr == "get" and isinstance(n.ast.func.value, ast.Name) and n.ast.func.value.id in cgi.module.assigns]  # type: ignore[union-attr]
+    for lk in lookups:
+        ob.inst(cgi, lk.ast, "specialisation cache lookup")
+        kd = dcg.of(lk.ast.args[0]) if lk.ast.args else frozenset()  # type: ignore[union-attr]
+        if not ({"param:cls", f"param:{arg_p}"} <= kd):
+            ob.fail(cgi, lk.ast, "the cache of specialised classes is consulted with a key that lacks the class or the type arguments")
+        from ..kinds import Scenario as _ScnG
+
+        for hit in (True, False):
+
+            def env_c(e: ast.AST, hit=hit, lk=lk):
+                if e is lk.ast:
+                    return _CLS if hit else None
+                if isinstance(e, ast.Call) and is_name(e.func, "any"):
+                    return False  # no unresolved TypeVar among the arguments
+                return NOVALUE
+
+            scg = _ScnG(gcg, dcg, env_c)
+            live = [n for n in gcg.nodes if n.kind == "return" and n.id in scg.reach]
+            built = [n for n in gcg.nodes if n.kind == "call" and n.ast in news and n.id in scg.reach]
+            if hit and built:
+                ob.fail(cgi, lk.ast, "a cached specialisation is ignored: every subscription builds a new class (Box[int] is not Box[int]; isinstance checks between equal specialisations fail)")
+            if hit and any("call:" + (an.callee(cgi, lk.ast) or "") not in dcg.origins(r.ast.value) and not any(o.endswith(".get") for o in dcg.origins(r.ast.value)) for r in live):  # type: ignore[union-attr]
+                ob.fail(cgi, lk.ast, "with a cached specialisation present something else is returned")
+            if not hit and not built:
+                ob.fail(cgi, lk.ast, "without a cached specialisation no class is built")
+    smn = prog.fn("state.structure.StateMeta.__new__")
+    dsm = Deps(prog, smn)
+    aa = [c for c in smn.own_nodes() if isinstance(c, ast.Call) and an.callee(smn, c) == prog.fn("state.attributes.attribute_annotations").qualname]
+    if not aa:
+        ob.missing(smn, None, "StateMeta.__new__ does not resolve the attribute annotations")
+    for c in aa:
+        ob.inst(smn, c)
+        tp = next((k.value for k in c.keywords if k.arg == "type_parameters"), None) or (c.args[1] if len(c.args) > 1 else None)
+        if tp is None or "param:type_parameters" not in dsm.of(tp):
+            ob.fail(smn, c, "the type parameters of a specialised State are not passed to attribute_annotations: Box[int].value validates as Any")
 
     # ------------------------------------------------------------------ C05.7 __class_getitem__ arity
     ob = an.ob("C05.7", "K5 arity", "every explicit .__class_getitem__(...) call passes exactly one positional argument (State.__class_getitem__ and typing.Generic take a single parameter; several generic arguments travel as one tuple)")
@@ -302,6 +365,22 @@ def check(an: Analysis) -> None:
         raise AnalysisError(f"C05.8: VALIDATORS has only {len(table.keys)} entries (confirmed: 28)")
 
     # ------------------------------------------------------------------ C05.9 identity validators: accept -> the value itself, otherwise raise
+    obf = an.ob("C05.15", "K5", "every validator factory of the VALIDATORS table returns, on every path, a validator: one of its own one-parameter closures (or what another factory returns)", [f"{VAL}.VALIDATORS"])
+    for kind_, (fac, closures) in factory_closures(an).items():
+        dfac_ = Deps(prog, fac)
+        names_ = {c.name for c in closures}
+        rets_ = [r for r in fac.own_nodes() if isinstance(r, ast.Return)]
+        obf.inst(fac, None, f"{kind_}: {len(rets_)} return(s)")
+        if not rets_:
+            obf.fail(fac, None, "the validator factory returns nothing")
+        for r in rets_:
+            v = unwrap(r.value) if r.value is not None else None
+            for _hop in range(3):
+                if isinstance(v, ast.Name) and v.id not in names_ and (sv := dfac_.single_value(v.id)) is not None:
+                    v = unwrap(sv)
+            ok = (isinstance(v, ast.Name) and v.id in names_) or (isinstance(v, ast.Call) and (an.callee(fac, v) or "").startswith(fac.module.name + "._prepare_validator"))
+            if not ok:
+                obf.fail(fac, r, f"the {kind_} validator factory returns `{stmt_text(v) if v is not None else 'None'}` instead of its validator: every State with such an attribute fails to validate")
     ob = an.ob("C05.9", "K8", "leaf validators (any / none / missing / literal / type / callable) return the value itself and every non-accepting path raises (no fall-through returning None)")
     for q, f in [(k, c) for k in ("any", "none", "missing", "literal", "type", "callable") if k in fcs for c in fcs[k][1]]:
         g = an.cfg(f)
@@ -515,7 +594,7 @@ def _is_subject(f: FunctionInfo, e: ast.AST, vparam: str, want: str) -> bool:
     return isinstance(pat, ast.MatchMapping) and not pat.keys and pat is cap[1]
 
 
-def _bound_from_origin(f: FunctionInfo, a: ast.AST | None, ann_param: str) -> bool:
+def _bound_from_origin(f: FunctionInfo, a: ast.AST | None, ann_param: str, where: ast.AST | None = None) -> bool:
     """Is `a` a name captured by a `case <name>` arm of `match get_origin(...)` (or `get_origin(x) or x`)?"""
     if not isinstance(a, ast.Name) or a.id == ann_param:
         return False
@@ -523,7 +602,7 @@ def _bound_from_origin(f: FunctionInfo, a: ast.AST | None, ann_param: str) -> bo
         subj_is_origin = any(isinstance(x, ast.Call) and (dotted(x.func) or "").endswith("get_origin") for x in ast.walk(m.subject))
         for case in m.cases:
             for pn in ast.walk(case.pattern):
-                if isinstance(pn, ast.MatchAs) and pn.name == a.id and within(a, case):
+                if isinstance(pn, ast.MatchAs) and pn.name == a.id and within(where if where is not None else a, case):
                     if subj_is_origin:
                         return True
     # plain assignment from get_origin
